@@ -204,6 +204,37 @@ def run_dropamend_case(ctx, index: int):
     return found, info
 
 
+def run_injected_env_case(ctx, index: int):
+    """A step of a sub-plan tracks a variable that the director itself injects into the environment of the steps
+    (STEPUP_ROOT, ...).  Touching the boot plan wakes its hash check while its own plan is skipped: the stored
+    and the recomputed hash must be computed from the same environment, so the step is skipped."""
+    from simdirector import A, FifoSchedule, Project, plan_file
+
+    r = ctx.rng("injected-env", index)
+    name = ["STEPUP_ROOT", "STEPUP_BUILD_LOG_LEVEL", "STEPUP_DIRECTOR_SOCKET"][index % 3]
+    # the input of `stamp` is declared by the boot plan: when that plan runs again the file is declared again,
+    # confirmed unchanged, and `stamp` goes through a hash check
+    sub = [A.step("stamp", inp=["sub/in.txt"], out=["sub/stamp.txt"], env=[name])]
+    plan = [A.static("sub.py", "sub/in.txt"), A.step("./sub.py", inp=["sub.py"], plan=True)]
+    scripts = {"./plan.py": plan, "./sub.py": sub, "stamp": [A.read_declared(), A.write_declared()]}
+    files = {"plan.py": plan_file(plan), "sub.py": plan_file(sub), "sub/in.txt": "x\n"}
+    found = []
+    info = {"variable": name}
+    with SimDirector(Project(scripts=copy.deepcopy(scripts), files=dict(files)), seed=r.randrange(1 << 30)) as sim:
+        b1 = sim.build(njob=1, schedule=FifoSchedule())
+        if b1.status != "done" or not b1.ok:
+            return [("director-" + b1.status, f"the first build ended with {b1.returncode!r}", info)], info
+        sim.apply([("write", "plan.py", plan_file(plan, note="touched"))])
+        b2 = sim.build(njob=1, schedule=FifoSchedule())
+        info["commands"] = b2.commands
+        if "stamp" in b2.commands:
+            found.append(("command-outside-cone:step-tracking-a-director-variable",
+                          f"after touching only plan.py the rebuild executed {b2.commands}: `stamp` tracks {name}, which "
+                          f"did not change, consumes only sub/in.txt and its plan ./sub.py was skipped",
+                          {**info, "events": [e[:2] for e in b2.events if e[0] in ("START", "SKIP", "NOSKIP", "UPDATED")][:12]}))
+    return found, info
+
+
 def run_env_dropped_case(ctx, index: int):
     """A step stops reading an environment variable (its script and a declared input change, so it is
     run again and no longer announces the variable); afterwards the variable changes: nothing tracks it
@@ -318,6 +349,16 @@ async def search(ctx):
             ctx.finding(Finding(PID, sig, what, {
                 "case": {"verif_seed": ctx.seed, "salt": "dropamend", "index": i}, **extra,
                 "how": "props/c04.py run_dropamend_case(ctx, index); harness/repro/c04_dropamend_two_plans.py"}))
+    for i in range(ctx.budget(3, 12)):
+        found, info = await asyncio.to_thread(run_injected_env_case, ctx, i)
+        st.case(("injected-env", i), nontrivial=True)
+        st.programs += 1
+        st.count("injected-env-histories")
+        for sig, what, extra in found:
+            st.count("finding:" + sig)
+            ctx.finding(Finding(PID, sig, what, {
+                "case": {"verif_seed": ctx.seed, "salt": "injected-env", "index": i}, **extra,
+                "how": "props/c04.py run_injected_env_case(ctx, index)"}))
     for i in range(ctx.budget(6, 60)):
         found, info = await asyncio.to_thread(run_env_dropped_case, ctx, i)
         st.case(("env-dropped", i), nontrivial=True)
